@@ -13,7 +13,8 @@ from .geom import qturn, rot_index
 
 META = dict(
     bounds=dict(
-        quick=dict(ndim="1..3", n="3 per axis (polynomials), 3 per axis (identities)", mapping="every permutation of components onto axes (<=6)",
+        quick=dict(also="axis names that are the default component labels in another order; permuted mappings through laplace and rotate90; more components than axes with a mapping naming one axis twice",
+                   ndim="1..3", n="3 per axis (polynomials), 3 per axis (identities)", mapping="every permutation of components onto axes (<=6)",
                    dims="default and renamed", labels="default and custom", periodic="identities with one periodic direction"),
         thorough=dict(ndim="1..4 (grad/div/laplace), 3 (curl)", n="mixes of 3 and 4", mapping="every permutation", dims="default and renamed",
                       labels="default and custom", periodic="identities with periodic directions"),
